@@ -35,7 +35,7 @@ class Harness:
     """
 
     def __init__(self, name, cfg, sym, real=None, functions=(), bounds=None, stubs=(),
-                 assumptions=(), sample_rate=None, expect_reach=True):
+                 assumptions=(), sample_rate=None, expect_reach=True, validate_exc=True):
         self.name = name
         self.cfg = cfg
         self.sym = sym
@@ -46,6 +46,7 @@ class Harness:
         self.assumptions = list(assumptions)
         self.sample_rate = sample_rate
         self.expect_reach = expect_reach
+        self.validate_exc = validate_exc  # False where the replay cannot impose the stub's random choices
 
 
 _H = {}  # name -> Harness, filled before fork
@@ -315,7 +316,7 @@ def run_check(check_id, harnesses, tier, seed, known=None, budget_s=None, eviden
                     val_err = "shim disagreement on harness %s: inputs=%s shim=%s real=%s" % (
                         rec["harness"], json.dumps(rec["inputs"])[:600], json.dumps(rec["expected"])[:600], json.dumps(o["outputs"])[:600])
                     break
-                if rec["kind"] in ("legit_exc",) and o.get("exception") is None and rec.get("note"):
+                if rec["kind"] in ("legit_exc",) and o.get("exception") is None and rec.get("note") and _H[rec["harness"]].validate_exc:
                     val_err = "shim raised %s but the real code did not: inputs=%s" % (rec["note"], json.dumps(rec["inputs"])[:600])
                     break
                 validated += 1
